@@ -41,7 +41,7 @@
 EXTENDS Integers, Sequences, FiniteSets, TLC, SequencesExt, FiniteSetsExt, Json
 
 CONSTANTS Scope,       \* which configs Init draws from: "table" | "sel_small" | "sel_full" | "sel3" | "values"
-          NTable,      \* "table": configs ConfigTab[1..NTable]
+          TableLo, NTable,   \* "table": configs ConfigTab[TableLo..NTable]
           MaxLen,      \* longest server fault script
           RunCalls,    \* FALSE: resolution only (the behaviour ends once every method is loaded)
           FreeJitter,  \* TRUE: every sleep picks its own jitter; FALSE: one jitter per call (case emission)
@@ -186,7 +186,7 @@ Values ==
    \cup {base("30s", "0.5s", "8s", "2", {}, k) : k \in 0..3}
    \cup {<<E({N(RT, "Get")}, t, NoPol)>> : t \in durs \ {"0s"}}
 
-ConfigPairs == CASE Scope = "table"     -> {<<i, ConfigTab[i]>> : i \in 1..NTable}
+ConfigPairs == CASE Scope = "table"     -> {<<i, ConfigTab[i]>> : i \in TableLo..NTable}
                  [] Scope = "sel_small" -> {<<0, c>> : c \in SelSmall}
                  [] Scope = "sel_full"  -> {<<0, c>> : c \in SelFull}
                  [] Scope = "sel3"      -> {<<0, c>> : c \in Sel3}
